@@ -8,6 +8,12 @@
 (*   rl_blox.blox.value_policy  greedy_policy, epsilon_greedy_policy (tables) *)
 (*   rl_blox.blox.q_policy      greedy_policy (Q-network)                     *)
 (*                                                                            *)
+(* The greedy selectors are specified on two lattices of Q rows: head "Q" -    *)
+(* rationals that are exactly tied or well separated - and head "QOrd" -       *)
+(* NEAR-TIES: float32 values zero to three ulps apart at several magnitudes    *)
+(* and signs, written as float32 ORDINALS (device D4), on which TLC decides    *)
+(* the maximiser set exactly.                                                  *)
+(*                                                                            *)
 (* The specification is functional: a behaviour is a staged choice of a test  *)
 (* vector (head -> shape -> lattice index) followed by one action per public  *)
 (* method, which states the result the method must return: its SHAPE and, per *)
@@ -30,6 +36,8 @@ CONSTANTS EMIT,       \* TRUE: print one EMIT record per method evaluation
           EpsKeys,    \* random keys per epsilon-greedy case
           FreqN,      \* rows of the sampling-frequency / noise-moment cases
           FreqStep,   \* sampling-frequency cases at the multiples of FreqStep
+          OrdStep,    \* near-tie rows (head "QOrd") at the multiples of OrdStep
+          OrdKeys,    \* random keys per near-tie epsilon-greedy case
           Deviation   \* "none", or the name of a deviation definition (canary)
 
 VARIABLES stage,      \* "start" -> "head" -> "shape" -> "case"
@@ -37,7 +45,8 @@ VARIABLES stage,      \* "start" -> "head" -> "shape" -> "case"
 vars == <<stage, head, bat, dim, idx>>
 
 GaussHeads == {"GaussianPolicy", "GaussianTanhPolicy"}
-AllHeads   == GaussHeads \cup {"SoftmaxPolicy", "DeterministicTanhPolicy", "Q"}
+QHeads     == {"Q", "QOrd"}                 \* Q rows: rationals / float32 ordinals (near-ties)
+AllHeads   == GaussHeads \cup {"SoftmaxPolicy", "DeterministicTanhPolicy"} \cup QHeads
 
 RECURSIVE Pow(_, _)
 Pow(b, e) == IF e = 0 THEN 1 ELSE b * Pow(b, e - 1)
@@ -167,6 +176,66 @@ EpsGreedy(row, eps, roll, rand) == IF Explore(roll, eps) THEN rand ELSE Greedy(r
 ZeroBased(S) == {k - 1 : k \in S}
 
 ----------------------------------------------------------------------------
+(* Near-ties: Q rows on float32 ordinals (device D4)                           *)
+(*                                                                            *)
+(* The normal float32 number 2^e (1 + m / 2^23), -126 <= e <= 127,             *)
+(* 0 <= m < 2^23, has ordinal (e + 127) 2^23 + m; its negative has the         *)
+(* negated ordinal; 0 has ordinal 0.  The map is strictly monotone, so order   *)
+(* and equality of ordinals ARE order and equality of the floats, and          *)
+(* "ordinal + 1" is "the next float32" (one ulp up), also across a binade.     *)
+(* Ordinals of magnitude 1 .. 2^23 - 1 are the subnormal numbers; they are not *)
+(* used (XLA on CPU computes with subnormals flushed to zero).                 *)
+TwoP23 == 8388608
+OrdOf(e, m) == (e + 127) * TwoP23 + m
+MinNormal == OrdOf(-126, 0)                         \* 2^-126
+OrdInf    == OrdOf(128, 0)                          \* first ordinal that is not a finite number
+(* magnitudes of the near-tie rows: 2^-40 (9.1e-13), 2^-23 (1.2e-7), 1/2,      *)
+(* 1 - 2^-23 (two floats below 1: the row crosses the binade), 1, 1000         *)
+OrdMagn == << [e |-> -40, m |-> 0], [e |-> -23, m |-> 0], [e |-> -1, m |-> 0],
+              [e |-> -1, m |-> TwoP23 - 2], [e |-> 0, m |-> 0], [e |-> 9, m |-> 7995392] >>
+NMagn == Len(OrdMagn)
+NOrdBases == 2 * NMagn + 1
+(* the four levels of base k, increasing: four consecutive floats upwards from *)
+(* the magnitude, their mirror images below zero, and the floats next to zero  *)
+OrdLevels(k) ==
+  IF k <= NMagn THEN LET B == OrdOf(OrdMagn[k].e, OrdMagn[k].m) IN <<B, B + 1, B + 2, B + 3>>
+  ELSE IF k <= 2 * NMagn
+       THEN LET B == OrdOf(OrdMagn[k - NMagn].e, OrdMagn[k - NMagn].m) IN <<-(B + 3), -(B + 2), -(B + 1), -B>>
+  ELSE <<-MinNormal, 0, MinNormal, MinNormal + 1>>
+ASSUME \A k \in 1..NOrdBases :
+         /\ \A d \in 1..3 : OrdLevels(k)[d] < OrdLevels(k)[d + 1]
+         /\ \A d \in 1..4 : LET o == OrdLevels(k)[d]
+                            IN o = 0 \/ (MinNormal <= o /\ o < OrdInf) \/ (MinNormal <= -o /\ -o < OrdInf)
+
+OrdPoints(n) == NOrdBases * Pow(4, n)
+ORow(n, j0) == LET j  == j0 % OrdPoints(n)
+                   lv == OrdLevels((j \div Pow(4, n)) + 1)
+               IN [k \in 1..n |-> lv[Digit(j % Pow(4, n), k, 4) + 1]]
+(* the rows of one table lie at different magnitudes *)
+OTable(s, n, i0) == [t \in 1..s |-> ORow(n, i0 + (Pow(4, n) + 37) * (t - 1))]
+
+(* maximisers of a row of ordinals *)
+OrdArgMaxSet(row) == {i \in 1..Len(row) : \A j \in 1..Len(row) : row[j] <= row[i]}
+OrdArgMaxFirst(row) == CHOOSE i \in OrdArgMaxSet(row) : \A j \in OrdArgMaxSet(row) : i <= j
+(* distance (in float32 steps) between the best and the second-best value; 0 = all tied *)
+OrdGap(row) == LET S == OrdArgMaxSet(row)
+                   R == (1..Len(row)) \ S
+               IN IF R = {} THEN 0
+                  ELSE LET j == CHOOSE j \in R : \A l \in R : row[l] <= row[j]
+                       IN row[OrdArgMaxFirst(row)] - row[j]
+(* the selectors on a row of ordinals.  Deviation "tie_jitter": the non-       *)
+(* exploring branch breaks ties "at random" by adding a key-dependent jitter   *)
+(* of fixed size before the arg-max; the jitter is modelled as 0 or 2 float32  *)
+(* steps per action.                                                           *)
+GreedyOrd(row) == OrdArgMaxFirst(row) - 1
+NoJitter(n) == [k \in 1..n |-> 0]
+Jitters(n) == IF Deviation = "tie_jitter" THEN [1..n -> {0, 2}] ELSE {NoJitter(n)}
+GreedyOrdJittered(row, jit) == OrdArgMaxFirst([k \in 1..Len(row) |-> row[k] + jit[k]]) - 1
+EpsGreedyOrd(row, eps, roll, rand, jit) ==
+  IF Explore(roll, eps) THEN rand
+  ELSE IF Deviation = "tie_jitter" THEN GreedyOrdJittered(row, jit) ELSE GreedyOrd(row)
+
+----------------------------------------------------------------------------
 Emit(op, args, exp) ==
   EMIT => PrintT(<<"EMIT", ToJson([op |-> op, head |-> head, b |-> bat, n |-> dim, i |-> idx,
                                    args |-> args, exp |-> exp])>>)
@@ -178,7 +247,7 @@ ChooseHead(h) == /\ stage = "start"
                  /\ UNCHANGED <<bat, dim, idx>>
 
 WidthsOf(h)  == IF h \in GaussHeads \cup {"DeterministicTanhPolicy"} THEN Dims ELSE Actions
-BatchesOf(h) == IF h = "Q" THEN States ELSE Batches
+BatchesOf(h) == IF h \in QHeads THEN States ELSE Batches
 ChooseShape(b, n) == /\ stage = "head"
                      /\ b \in BatchesOf(head) /\ n \in WidthsOf(head)
                      /\ bat' = b /\ dim' = n /\ stage' = "shape"
@@ -187,9 +256,11 @@ ChooseShape(b, n) == /\ stage = "head"
 PointsOf(h, n) == IF h \in GaussHeads THEN 0..(NPoints - 1)
                   ELSE IF h = "DeterministicTanhPolicy" THEN 0..2
                   ELSE IF h = "SoftmaxPolicy" THEN 0..(NSoft(n) - 1)
+                  ELSE IF h = "QOrd" THEN 0..(OrdPoints(n) - 1)
                   ELSE 0..(Pow(4, n) - 1)
+StepOf(h) == IF h = "DeterministicTanhPolicy" THEN 1 ELSE IF h = "QOrd" THEN OrdStep ELSE Step
 ChoosePoint(i) == /\ stage = "shape"
-                  /\ i \in PointsOf(head, dim) /\ (i % Step = 0 \/ head = "DeterministicTanhPolicy")
+                  /\ i \in PointsOf(head, dim) /\ i % StepOf(head) = 0
                   /\ idx' = i /\ stage' = "case"
                   /\ UNCHANGED <<head, bat, dim>>
 
@@ -317,10 +388,40 @@ TableEpsilonGreedy(s, eps, key) ==   \* value_policy.epsilon_greedy_policy
               law |-> IF eps = 0 THEN "greedy" ELSE "same action for table and alt (same key)",
               range |-> dim])
 
+(* ---- the same three selectors on near-tie rows (float32 ordinals) ---- *)
+(* what the ordinals of the lattice mean, for the binding to cross-check its  *)
+(* ordinal -> float32 conversion                                              *)
+OrdinalLayout ==
+  /\ Case("QOrd") /\ idx = 0
+  /\ Emit("D4.ordinal_layout",
+          [magnitudes |-> [k \in 1..NMagn |-> [e |-> OrdMagn[k].e, m |-> OrdMagn[k].m,
+                                               ord |-> OrdOf(OrdMagn[k].e, OrdMagn[k].m)]]
+                          \o <<[e |-> -126, m |-> 0, ord |-> MinNormal]>>],
+          [law |-> "float32(2^e (1 + m / 2^23)) has ordinal ord"])
+
+TableGreedyNearTie(s) ==       \* value_policy.greedy_policy(q_table, observation)
+  /\ Case("QOrd") /\ s \in 0..(bat - 1)
+  /\ LET row == OTable(bat, dim, idx)[s + 1]
+     IN Emit("value_policy.greedy_policy@near_tie", [otable |-> OTable(bat, dim, idx), obs |-> s],
+             [argmax |-> ZeroBased(OrdArgMaxSet(row)), first |-> GreedyOrd(row), gap |-> OrdGap(row)])
+
+NetGreedyNearTie(s) ==         \* q_policy.greedy_policy(q_net, obs), obs = one-hot(s)
+  /\ Case("QOrd") /\ s \in 0..(bat - 1)
+  /\ LET row == OTable(bat, dim, idx)[s + 1]
+     IN Emit("q_policy.greedy_policy@near_tie", [otable |-> OTable(bat, dim, idx), obs |-> s],
+             [argmax |-> ZeroBased(OrdArgMaxSet(row)), first |-> GreedyOrd(row), gap |-> OrdGap(row)])
+
+TableEpsilonGreedyNearTie(s, key) ==   \* value_policy.epsilon_greedy_policy, epsilon = 0, any key
+  /\ Case("QOrd") /\ s \in 0..(bat - 1)
+  /\ LET row == OTable(bat, dim, idx)[s + 1]
+     IN Emit("value_policy.epsilon_greedy_policy@near_tie",
+             [otable |-> OTable(bat, dim, idx), obs |-> s, eps |-> 0, key |-> key],
+             [argmax |-> ZeroBased(OrdArgMaxSet(row)), law |-> "greedy", gap |-> OrdGap(row)])
+
 Keys == 0..(NKeys - 1)
 Next == \/ \E h \in AllHeads : ChooseHead(h)
         \/ \E b \in Batches \cup States, n \in Dims \cup Actions : ChooseShape(b, n)
-        \/ \E i \in 0..(Pow(4, 4) + Pow(2, 4)) : ChoosePoint(i)
+        \/ stage = "shape" /\ \E i \in PointsOf(head, dim) : ChoosePoint(i)
         \/ \E h \in GaussHeads : \/ GaussianCall(h) \/ GaussianLogProbability(h) \/ GaussianEntropy(h)
                                  \/ \E key \in Keys : GaussianSample(h, key) \/ GaussianSampleMoments(h, key)
         \/ DeterministicCall
@@ -328,6 +429,9 @@ Next == \/ \E h \in AllHeads : ChooseHead(h)
         \/ \E key \in Keys : SoftmaxSample(key) \/ SoftmaxSampleFrequency(key)
         \/ \E s \in 0..2 : \/ TableGreedy(s) \/ NetGreedy(s)
                            \/ \E eps \in {0, 1}, key \in 0..(EpsKeys - 1) : TableEpsilonGreedy(s, eps, key)
+                           \/ TableGreedyNearTie(s) \/ NetGreedyNearTie(s)
+                           \/ \E key \in 0..(OrdKeys - 1) : TableEpsilonGreedyNearTie(s, key)
+        \/ OrdinalLayout
 
 Spec == Init /\ [][Next]_vars
 
@@ -337,7 +441,7 @@ Spec == Init /\ [][Next]_vars
 (* the un-batched case at base index i + RowStride * r, so the per-element    *)
 (* laws are evaluated on the un-batched cases (one table row for Q) only.     *)
 InCase(h) == stage = "case" /\ head = h
-InRowCase(h) == InCase(h) /\ bat = (IF h = "Q" THEN 1 ELSE 0)
+InRowCase(h) == InCase(h) /\ bat = (IF h \in QHeads THEN 1 ELSE 0)
 Elems(h) == {Elem(h, idx, r, k) : r \in 0..(Rows(bat) - 1), k \in 1..dim}
 NoiseSet == {I(-2), Q(-1, 2), Zero, One, Q(3, 2)}
 
@@ -409,4 +513,23 @@ EpsZeroIsGreedy ==
 EpsOneIgnoresValues ==
   InRowCase("Q") => \A roll \in RollSet, rand \in 0..(dim - 1), j \in 0..(Pow(4, dim) - 1) :
      EpsGreedy(QTable(bat, dim, idx)[1], One, roll, rand) = EpsGreedy(QRow(dim, j), One, roll, rand)
+
+(* the same on near-ties.  On ordinals the maximiser set is decided exactly:   *)
+(* its members are equal floats, every other entry is a strictly smaller one,  *)
+(* and a row of pairwise different floats has exactly one maximiser            *)
+NearTieArgMaxExact ==
+  InCase("QOrd") => \A t \in 1..bat :
+     LET row == OTable(bat, dim, idx)[t]
+         S == OrdArgMaxSet(row)
+     IN /\ S # {} /\ \A i \in S, j \in S : row[i] = row[j]
+        /\ \A i \in S, j \in (1..dim) \ S : row[j] < row[i]
+        /\ ((\A i, j \in 1..dim : i # j => row[i] # row[j]) => Cardinality(S) = 1)
+        /\ (OrdGap(row) = 0) = (S = 1..dim)
+NearTieGreedyIsMaximiser ==
+  InCase("QOrd") => \A t \in 1..bat :
+     GreedyOrd(OTable(bat, dim, idx)[t]) + 1 \in OrdArgMaxSet(OTable(bat, dim, idx)[t])
+(* epsilon = 0 is greedy however small the differences and whatever the key   *)
+NearTieEpsZeroIsGreedy ==
+  InRowCase("QOrd") => \A roll \in RollSet, rand \in 0..(dim - 1), jit \in Jitters(dim) :
+     EpsGreedyOrd(OTable(bat, dim, idx)[1], Zero, roll, rand, jit) + 1 \in OrdArgMaxSet(OTable(bat, dim, idx)[1])
 =============================================================================
